@@ -83,8 +83,8 @@ Qed.
 (* ---- the accumulator state as a function of the fed region ---- *)
 Definition optl (l : list leaf) : option (list leaf) := match l with [] => None | _ => Some l end.
 Definition optb (b : bytes) : option bytes := match b with [] => None | _ => Some b end.
-Definition enc (fs : N) (done : list bytes) (cur : bytes) : mstate :=
-  MS (optl (map (fun c => (fs, c)) done)) (optb cur).
+Definition enc (fs sk : N) (done : list bytes) (cur : bytes) : mstate :=
+  MS (optl (map (fun c => (fs, c)) done)) (optb cur) sk.
 
 Lemma push_enc fs done c :
   push_leaf (optl (map (fun c => (fs, c)) done)) (fs, c) = optl (map (fun c => (fs, c)) (done ++ [c])).
@@ -95,16 +95,16 @@ Qed.
 Lemma len_length {A} (l : list A) : len l = N.of_nat (length l).
 Proof. reflexivity. Qed.
 
-Lemma loop_spec : forall fuel fs done cur d dlen,
+Lemma loop_spec : forall fuel fs sk done cur d dlen,
   1 <= N.to_nat fs -> length cur < N.to_nat fs -> length d < fuel -> (cur <> [] -> dlen = len d) ->
-  fixed_loop fuel fs (enc fs done cur) d (len d) dlen
-  = AOk (enc fs (fst (feed (N.to_nat fs) done cur d)) (snd (feed (N.to_nat fs) done cur d))).
+  fixed_loop fuel fs (enc fs sk done cur) d (len d) dlen
+  = AOk (enc fs sk (fst (feed (N.to_nat fs) done cur d)) (snd (feed (N.to_nat fs) done cur d))).
 Proof.
-  induction fuel as [|fuel IH]; intros fs done cur d dlen Hk Hc Hf Hd; [lia|].
+  induction fuel as [|fuel IH]; intros fs sk done cur d dlen Hk Hc Hf Hd; [lia|].
   set (k := N.to_nat fs) in *.
   destruct cur as [|c0 cur'].
   - (* no pending remainder *)
-    cbn [fixed_loop enc rem optb leaves].
+    cbn [fixed_loop enc rem optb leaves skipped].
     destruct (Nat.lt_ge_cases (length d) k) as [Hlt|Hge].
     + rewrite feed_small by (cbn [length]; lia). cbn [fst snd app].
       replace (N.min fs (len d)) with (len d) by (rewrite len_length; lia).
@@ -121,12 +121,12 @@ Proof.
       rewrite N.ltb_irrefl. fold k.
       rewrite push_enc.
       replace (len d - fs)%N with (len (skipn k d)) by (rewrite !len_length, skipn_length; lia).
-      change (MS (optl (map (fun c => (fs, c)) (done ++ [firstn k d]))) None)
-        with (enc fs (done ++ [firstn k d]) []).
+      change (MS (optl (map (fun c => (fs, c)) (done ++ [firstn k d]))) None sk)
+        with (enc fs sk (done ++ [firstn k d]) []).
       apply IH; [exact Hk|cbn [length]; lia|rewrite skipn_length; lia|intro H; congruence].
   - (* pending remainder: only on the first iteration, data_len = data_left *)
     rewrite (Hd ltac:(discriminate)).
-    cbn [fixed_loop enc rem optb leaves].
+    cbn [fixed_loop enc rem optb leaves skipped].
     set (cur := c0 :: cur') in *.
     destruct (Nat.lt_ge_cases (length cur + length d) k) as [Hlt|Hge].
     + rewrite feed_small by lia. cbn [fst snd].
@@ -145,8 +145,8 @@ Proof.
       rewrite push_enc.
       replace (len d - N.of_nat (k - length cur))%N with (len (skipn (k - length cur) d))
         by (rewrite !len_length, skipn_length; lia).
-      change (MS (optl (map (fun c => (fs, c)) (done ++ [cur ++ firstn (k - length cur) d]))) None)
-        with (enc fs (done ++ [cur ++ firstn (k - length cur) d]) []).
+      change (MS (optl (map (fun c => (fs, c)) (done ++ [cur ++ firstn (k - length cur) d]))) None sk)
+        with (enc fs sk (done ++ [cur ++ firstn (k - length cur) d]) []).
       apply IH; [exact Hk|cbn [length]; lia|rewrite skipn_length; lia|intro H; congruence].
 Qed.
 
@@ -160,14 +160,14 @@ Proof.
     + rewrite IH. rewrite <- !app_assoc. reflexivity.
 Qed.
 
-Definition state_of (fs : N) (q : bytes) : mstate :=
-  enc fs (fst (feed (N.to_nat fs) [] [] q)) (snd (feed (N.to_nat fs) [] [] q)).
+Definition state_of (fs sk : N) (q : bytes) : mstate :=
+  enc fs sk (fst (feed (N.to_nat fs) [] [] q)) (snd (feed (N.to_nat fs) [] [] q)).
 
-Lemma state_of_nil fs : state_of fs [] = fresh_state.
+Lemma state_of_nil fs sk : state_of fs sk [] = MS None None sk.
 Proof. reflexivity. Qed.
 
-Lemma state_of_nonfirst fs q :
-  q <> [] -> is_none (leaves (state_of fs q)) && is_none (rem (state_of fs q)) = false.
+Lemma state_of_nonfirst fs sk q :
+  q <> [] -> is_none (leaves (state_of fs sk q)) && is_none (rem (state_of fs sk q)) = false.
 Proof.
   intro Hq. unfold state_of, enc. cbn [leaves rem].
   pose proof (feed_concat (N.to_nat fs) q [] []) as H. cbn [concat app] in H.
@@ -175,44 +175,52 @@ Proof.
     cbn in *; try reflexivity. congruence.
 Qed.
 
-Lemma add_nonfirst fs large q d :
+Lemma len_zero_nil (d : bytes) : (len d =? 0)%N = true -> d = [].
+Proof. destruct d; [reflexivity|]. unfold len. cbn [length]. intro H. apply N.eqb_eq in H. lia. Qed.
+
+(* a call that is not the first recording call for its mdat: the chunk is appended to the Merkle region *)
+Lemma add_nonfirst fs sk large q d :
   1 <= N.to_nat fs -> (large = true \/ q <> []) ->
-  add_leaf (Some fs) (state_of fs q) large d = AOk (state_of fs (q ++ d)).
+  add_leaf (Some fs) (state_of fs sk q) large d = AOk (state_of fs sk (q ++ d)).
 Proof.
   intros Hk Hnf. unfold add_leaf.
-  assert (Hfirst : negb large && is_none (leaves (state_of fs q)) && is_none (rem (state_of fs q)) = false).
-  { destruct Hnf as [-> | Hq]; [reflexivity|].
-    rewrite <- andb_assoc. rewrite (state_of_nonfirst fs q Hq). apply andb_false_r. }
-  rewrite Hfirst. cbn [andb]. cbn [N.to_nat skipn]. rewrite N.sub_0_r.
-  unfold state_of at 1.
-  destruct (feed_done_len (N.to_nat fs) q [] [] Hk ltac:(cbn; lia) ltac:(constructor)) as [_ Hc].
-  rewrite loop_spec; [|exact Hk|exact Hc|lia|reflexivity].
-  unfold state_of. rewrite (feed_app (N.to_nat fs) q d). reflexivity.
+  destruct (len d =? 0)%N eqn:E0.
+  - apply len_zero_nil in E0. subst d. rewrite app_nil_r. reflexivity.
+  - assert (Hfirst : negb large && is_none (leaves (state_of fs sk q)) && is_none (rem (state_of fs sk q)) = false).
+    { destruct Hnf as [-> | Hq]; [reflexivity|].
+      rewrite <- andb_assoc. rewrite (state_of_nonfirst fs sk q Hq). apply andb_false_r. }
+    cbv zeta. rewrite Hfirst. cbn [andb N.to_nat skipn]. rewrite N.sub_0_r.
+    unfold state_of at 1.
+    destruct (feed_done_len (N.to_nat fs) q [] [] Hk ltac:(cbn; lia) ltac:(constructor)) as [_ Hc].
+    rewrite loop_spec; [|exact Hk|exact Hc|lia|reflexivity].
+    unfold state_of. rewrite (feed_app (N.to_nat fs) q d). reflexivity.
 Qed.
 
-Lemma add_first_long fs d :
-  1 <= N.to_nat fs -> 8 < length d ->
-  add_leaf (Some fs) fresh_state false d = AOk (state_of fs (skipn 8 d)).
+(* a call while nothing has been recorded yet for a standard-header mdat: what is left of the 8 excluded bytes is
+   taken from the front of the chunk, whatever the chunk length *)
+Lemma add_first fs sk d :
+  1 <= N.to_nat fs -> (sk <= 8)%N ->
+  add_leaf (Some fs) (MS None None sk) false d
+  = AOk (state_of fs (sk + N.min (8 - sk) (len d))%N (skipn (N.to_nat (8 - sk)) d)).
 Proof.
-  intros Hk Hd. unfold add_leaf. cbn [fresh_state leaves rem is_none negb andb].
-  unfold SKIP_EARLY_MAX, HEADER_SKIP.
-  replace (len d <=? 8)%N with false by (symmetry; apply N.leb_gt; unfold len; lia).
-  change (N.to_nat 8) with 8.
-  replace (len d - 8)%N with (len (skipn 8 d)) by (unfold len; rewrite skipn_length; lia).
-  change fresh_state with (enc fs [] []).
-  rewrite loop_spec; [reflexivity|exact Hk|cbn; lia|rewrite skipn_length; lia|congruence].
+  intros Hk Hsk. unfold add_leaf.
+  destruct (len d =? 0)%N eqn:E0.
+  - apply len_zero_nil in E0. subst d. rewrite skipn_nil, state_of_nil.
+    replace (sk + N.min (8 - sk) (len []))%N with sk by (unfold len; cbn [length]; lia). reflexivity.
+  - apply N.eqb_neq in E0. cbv zeta. cbn [leaves rem skipped is_none negb andb]. unfold HEADER_SKIP.
+    destruct (N.min (8 - sk) (len d) =? len d)%N eqn:E1.
+    + apply N.eqb_eq in E1. rewrite skipn_all2 by (unfold len in *; lia). rewrite state_of_nil. reflexivity.
+    + apply N.eqb_neq in E1.
+      assert (Hm : (N.min (8 - sk) (len d) = 8 - sk)%N) by lia. rewrite Hm.
+      replace (len d - (8 - sk))%N with (len (skipn (N.to_nat (8 - sk)) d))
+        by (unfold len in *; rewrite skipn_length; lia).
+      change (MS None None (sk + (8 - sk))%N) with (enc fs (sk + (8 - sk))%N [] []).
+      rewrite loop_spec; [reflexivity|exact Hk|cbn; lia|rewrite skipn_length; lia|congruence].
 Qed.
 
-Lemma add_first_short fixed d :
-  length d <= 8 -> add_leaf fixed fresh_state false d = AOk fresh_state.
-Proof.
-  intro Hd. unfold add_leaf. cbn [fresh_state leaves rem is_none negb andb]. unfold SKIP_EARLY_MAX.
-  replace (len d <=? 8)%N with true by (symmetry; apply N.leb_le; unfold len; lia). reflexivity.
-Qed.
-
-Lemma run_nonfirst fs large : forall cs q,
+Lemma run_nonfirst fs sk large : forall cs q,
   1 <= N.to_nat fs -> (large = true \/ q <> []) ->
-  run_chunks (Some fs) large cs (state_of fs q) = AOk (state_of fs (q ++ concat cs)).
+  run_chunks (Some fs) large cs (state_of fs sk q) = AOk (state_of fs sk (q ++ concat cs)).
 Proof.
   induction cs as [|c t IH]; intros q Hk Hnf; cbn [run_chunks concat].
   - rewrite app_nil_r. reflexivity.
@@ -220,68 +228,44 @@ Proof.
     destruct Hnf as [H|H]; [left; exact H|right]. destruct q; [congruence|discriminate].
 Qed.
 
-(* ---- the leading chunks of at most 8 bytes ---- *)
-Fixpoint lead (cs : list bytes) : nat :=
-  match cs with
-  | [] => 0
-  | c :: t => if length c <=? 8 then length c + lead t else 0
-  end.
-Fixpoint drop_short (cs : list bytes) : list bytes :=
-  match cs with
-  | [] => []
-  | c :: t => if length c <=? 8 then drop_short t else cs
-  end.
+(* standard header: the state after feeding the bytes [t] in any pieces *)
+Definition std_state (fs : N) (t : bytes) : mstate := state_of fs (N.min 8 (len t)) (skipn 8 t).
 
-Lemma run_drop_short fixed cs :
-  run_chunks fixed false cs fresh_state = run_chunks fixed false (drop_short cs) fresh_state.
+Lemma add_std fs t c :
+  1 <= N.to_nat fs -> add_leaf (Some fs) (std_state fs t) false c = AOk (std_state fs (t ++ c)).
 Proof.
-  induction cs as [|c t IH]; [reflexivity|]. cbn [drop_short].
-  destruct (length c <=? 8) eqn:E; [|reflexivity].
-  cbn [run_chunks]. rewrite add_first_short by (apply Nat.leb_le; exact E). exact IH.
+  intro Hk. unfold std_state.
+  destruct (Nat.le_gt_cases (length t) 8) as [Hle|Hgt].
+  - rewrite (skipn_all2 t) by exact Hle. rewrite state_of_nil.
+    replace (N.min 8 (len t)) with (len t) by (unfold len; lia).
+    rewrite add_first by (try exact Hk; unfold len; lia).
+    f_equal. f_equal.
+    + unfold len. rewrite app_length. lia.
+    + rewrite skipn_app. rewrite (skipn_all2 t) by exact Hle. cbn [app]. f_equal. unfold len. lia.
+  - replace (N.min 8 (len t)) with 8%N by (unfold len; lia).
+    replace (N.min 8 (len (t ++ c))) with 8%N by (unfold len; rewrite app_length; lia).
+    rewrite add_nonfirst; [|exact Hk|right].
+    + f_equal. f_equal. rewrite skipn_app. replace (8 - length t) with 0 by lia. reflexivity.
+    + intro H. apply (f_equal (@length N)) in H. rewrite skipn_length in H. cbn in H. lia.
 Qed.
 
-Lemma drop_short_head cs c t : drop_short cs = c :: t -> 8 < length c.
+Lemma run_std fs : forall cs t,
+  1 <= N.to_nat fs ->
+  run_chunks (Some fs) false cs (std_state fs t) = AOk (std_state fs (t ++ concat cs)).
 Proof.
-  induction cs as [|c0 t0 IH]; cbn [drop_short]; [discriminate|].
-  destruct (length c0 <=? 8) eqn:E; [exact IH|]. intro H. injection H as -> ->. apply Nat.leb_gt. exact E.
-Qed.
-
-Lemma lead0_concat cs : lead cs = 0 -> concat cs = concat (drop_short cs).
-Proof.
-  induction cs as [|c t IH]; [reflexivity|]. cbn [lead drop_short].
-  destruct (length c <=? 8) eqn:E; [|reflexivity].
-  intro H. assert (Hc : length c = 0) by lia. destruct c; [|discriminate Hc].
-  cbn [concat app]. apply IH. lia.
+  induction cs as [|c r IH]; intros t Hk; cbn [run_chunks concat].
+  - rewrite app_nil_r. reflexivity.
+  - rewrite add_std by exact Hk. rewrite IH by exact Hk. rewrite app_assoc. reflexivity.
 Qed.
 
 (* bytes the accumulator drops in front of the Merkle region of a standard-header mdat *)
 Definition skip_of (large : bool) : nat := if large then 0 else N.to_nat HEADER_SKIP.
 
-(* the chunk list as the accumulator effectively sees it *)
-Definition effective (large : bool) (cs : list bytes) : list bytes := if large then cs else drop_short cs.
-
-Lemma run_fixed_char fs large cs :
-  1 <= N.to_nat fs ->
-  run_chunks (Some fs) large cs fresh_state
-  = AOk (state_of fs (skipn (skip_of large) (concat (effective large cs)))).
-Proof.
-  intro Hk. destruct large; cbn [skip_of effective skipn].
-  - rewrite <- (state_of_nil fs). rewrite run_nonfirst; [reflexivity|exact Hk|left; reflexivity].
-  - rewrite run_drop_short. destruct (drop_short cs) as [|c t] eqn:E.
-    + reflexivity.
-    + pose proof (drop_short_head _ _ _ E) as Hc.
-      cbn [run_chunks]. rewrite add_first_long by assumption.
-      rewrite run_nonfirst; [|exact Hk|right].
-      * cbn [concat]. unfold HEADER_SKIP. change (N.to_nat 8) with 8.
-        rewrite skipn_app. replace (8 - length c) with 0 by lia. reflexivity.
-      * intro H. apply (f_equal (@length N)) in H. rewrite skipn_length in H. cbn in H. lia.
-Qed.
-
 Definition mk (c : bytes) : leaf := (len c, c).
 
-Lemma final_enc fs (done : list bytes) cur :
+Lemma final_enc fs sk (done : list bytes) cur :
   Forall (fun c => length c = N.to_nat fs) done ->
-  final_leaves (enc fs done cur) = map mk (done ++ optlist cur).
+  final_leaves (enc fs sk done cur) = map mk (done ++ optlist cur).
 Proof.
   intro Hd.
   assert (Hm : map (fun c : bytes => (fs, c)) done = map mk done).
@@ -294,9 +278,9 @@ Proof.
     destruct (map mk done); reflexivity.
 Qed.
 
-Lemma final_state_of fs q :
+Lemma final_state_of fs sk q :
   1 <= N.to_nat fs ->
-  final_leaves (state_of fs q) = map mk (chunks (length q) (N.to_nat fs) q).
+  final_leaves (state_of fs sk q) = map mk (chunks (length q) (N.to_nat fs) q).
 Proof.
   intro Hk. unfold state_of.
   destruct (feed_done_len (N.to_nat fs) q [] [] Hk ltac:(cbn; lia) ltac:(constructor)) as [Hd _].
@@ -304,122 +288,145 @@ Proof.
   rewrite (feed_chunks (N.to_nat fs) (length q) q [] Hk (le_n _)). reflexivity.
 Qed.
 
-(* exact characterisation of the fixed-size leaves for every chunking (inside and outside F-MDAT8) *)
-Lemma fixed_char fs large cs :
-  (1 <= fs)%N ->
-  exists st, run_chunks (Some fs) large cs fresh_state = AOk st
-    /\ final_leaves st
-       = map mk (let q := skipn (skip_of large) (concat (effective large cs)) in chunks (length q) (N.to_nat fs) q).
-Proof.
-  intro Hfs. assert (Hk : 1 <= N.to_nat fs) by lia.
-  eexists. split; [apply run_fixed_char; exact Hk|]. cbn zeta. apply final_state_of. exact Hk.
-Qed.
-
-(* F-MDAT8: the payload of a standard-header mdat starts with chunks of at most 8 bytes that are not all empty *)
-Definition known_mdat8 (large : bool) (cs : list bytes) : Prop := large = false /\ 0 < lead cs.
-
-Lemma effective_concat large cs : ~ known_mdat8 large cs -> concat (effective large cs) = concat cs.
-Proof.
-  intro H. destruct large; cbn [effective]; [reflexivity|]. symmetry. apply lead0_concat.
-  unfold known_mdat8 in H. destruct (lead cs); [reflexivity|]. exfalso. apply H. split; [reflexivity|lia].
-Qed.
-
+(* fixed leaf size, EVERY chunking (short first chunks, empty chunks anywhere): the recorded leaves are the
+   fs-byte pieces of the payload after the header skip *)
 Lemma fixed_leaves fs large cs :
-  (1 <= fs)%N -> ~ known_mdat8 large cs ->
+  (1 <= fs)%N ->
   exists st, run_chunks (Some fs) large cs fresh_state = AOk st
     /\ final_leaves st
        = map mk (let q := skipn (skip_of large) (concat cs) in chunks (length q) (N.to_nat fs) q).
 Proof.
-  intros Hfs Hk. destruct (fixed_char fs large cs Hfs) as [st [H1 H2]].
-  exists st. split; [exact H1|]. rewrite H2. rewrite (effective_concat large cs Hk). reflexivity.
+  intro Hfs. assert (Hk : 1 <= N.to_nat fs) by lia. destruct large; cbn [skip_of skipn].
+  - change fresh_state with (state_of fs 0 []).
+    eexists. split; [apply run_nonfirst; [exact Hk|left; reflexivity]|]. cbn [app]. apply final_state_of. exact Hk.
+  - change fresh_state with (std_state fs []).
+    eexists. split; [apply run_std; exact Hk|]. cbn [app]. unfold std_state, HEADER_SKIP.
+    change (N.to_nat 8) with 8. apply final_state_of. exact Hk.
 Qed.
 
 Lemma fixed_split_independent fs large cs cs' :
-  (1 <= fs)%N -> concat cs = concat cs' -> ~ known_mdat8 large cs -> ~ known_mdat8 large cs' ->
+  (1 <= fs)%N -> concat cs = concat cs' ->
   exists st st', run_chunks (Some fs) large cs fresh_state = AOk st
     /\ run_chunks (Some fs) large cs' fresh_state = AOk st'
     /\ final_leaves st = final_leaves st'.
 Proof.
-  intros Hfs He Hk Hk'.
-  destruct (fixed_leaves fs large cs Hfs Hk) as [st [H1 H2]].
-  destruct (fixed_leaves fs large cs' Hfs Hk') as [st' [H1' H2']].
+  intros Hfs He.
+  destruct (fixed_leaves fs large cs Hfs) as [st [H1 H2]].
+  destruct (fixed_leaves fs large cs' Hfs) as [st' [H1' H2']].
   exists st, st'. split; [exact H1|split; [exact H1'|]]. rewrite H2, H2', He. reflexivity.
 Qed.
 
-(* ---- variable mode ---- *)
-Lemma run_var_some large : forall cs l,
-  run_chunks None large cs (MS (Some l) None) = AOk (MS (Some (l ++ map mk cs)) None).
+(* ---- variable mode: an invariant over the bytes fed so far ---- *)
+Definition lv (st : mstate) : list leaf := match leaves st with Some l => l | None => [] end.
+Definition good (lf : leaf) : Prop := fst lf = len (snd lf) /\ snd lf <> [].
+
+Record VInv (large : bool) (t : bytes) (st : mstate) : Prop := {
+  vi_rem : rem st = None;
+  vi_sk : large = false -> skipped st = N.min 8 (len t);
+  vi_cat : concat (map snd (lv st)) = skipn (skip_of large) t;
+  vi_good : Forall good (lv st);
+  vi_some : large = false -> leaves st <> None -> 8 <= length t }.
+
+Lemma lv_push l x r sk : lv (MS (push_leaf l x) r sk) = lv (MS l r sk) ++ [x].
+Proof. destruct l; reflexivity. Qed.
+
+Lemma var_push large t st c :
+  VInv large t st -> c <> [] -> (large = false -> 8 <= length t) ->
+  VInv large (t ++ c) (MS (push_leaf (leaves st) (len c - 0, skipn 0 c)%N) (rem st) (skipped st)).
 Proof.
-  induction cs as [|c t IH]; intro l; cbn [run_chunks map].
-  - rewrite app_nil_r. reflexivity.
-  - unfold add_leaf. cbn [leaves rem is_none]. rewrite andb_false_r. cbn [andb push_leaf N.to_nat skipn].
-    rewrite N.sub_0_r. rewrite IH. rewrite <- app_assoc. reflexivity.
+  intros [Hr Hs Hc Hg Hsome] Hne H8. cbn [skipn]. rewrite N.sub_0_r. constructor; cbn [rem leaves skipped].
+  - exact Hr.
+  - intro Hl. rewrite (Hs Hl). specialize (H8 Hl). unfold len. rewrite app_length. lia.
+  - rewrite lv_push. change (lv (MS (leaves st) (rem st) (skipped st))) with (lv st).
+    rewrite map_app, concat_app.
+    lazymatch goal with |- ?a ++ ?b = _ => transitivity (skipn (skip_of large) t ++ b); [f_equal; exact Hc|] end.
+    cbn [map snd concat]. rewrite app_nil_r.
+    destruct large; cbn [skip_of skipn] in *; [reflexivity|].
+    unfold HEADER_SKIP. change (N.to_nat 8) with 8. rewrite skipn_app.
+    replace (8 - length t) with 0 by (specialize (H8 eq_refl); lia). reflexivity.
+  - rewrite lv_push. change (lv (MS (leaves st) (rem st) (skipped st))) with (lv st).
+    apply Forall_app. split; [exact Hg|]. constructor; [|constructor]. split; [reflexivity|exact Hne].
+  - intros Hl _. specialize (H8 Hl). rewrite app_length. lia.
 Qed.
 
-Definition var_leaves (large : bool) (cs : list bytes) : list leaf :=
-  match effective large cs with
-  | [] => []
-  | c :: t => (len c - N.of_nat (skip_of large), skipn (skip_of large) c)%N :: map mk t
-  end.
-
-Lemma var_char large cs :
-  exists st, run_chunks None large cs fresh_state = AOk st /\ final_leaves st = var_leaves large cs.
+Lemma var_step large t st c :
+  VInv large t st -> exists st', add_leaf None st large c = AOk st' /\ VInv large (t ++ c) st'.
 Proof.
-  unfold var_leaves. destruct large; cbn [effective skip_of].
-  - destruct cs as [|c t].
-    + exists fresh_state. split; reflexivity.
-    + cbn [run_chunks]. unfold add_leaf. cbn [fresh_state leaves rem is_none negb andb push_leaf N.to_nat skipn].
-      rewrite run_var_some. eexists. split; [reflexivity|]. reflexivity.
-  - rewrite run_drop_short. destruct (drop_short cs) as [|c t] eqn:E.
-    + exists fresh_state. split; reflexivity.
-    + pose proof (drop_short_head _ _ _ E) as Hc.
-      cbn [run_chunks]. unfold add_leaf. cbn [fresh_state leaves rem is_none negb andb push_leaf].
-      unfold SKIP_EARLY_MAX, HEADER_SKIP.
-      replace (len c <=? 8)%N with false by (symmetry; apply N.leb_gt; unfold len; lia).
-      rewrite run_var_some. eexists. split; [reflexivity|]. reflexivity.
+  intro Hinv. unfold add_leaf.
+  destruct (len c =? 0)%N eqn:E0.
+  - apply len_zero_nil in E0. subst c. rewrite app_nil_r. exists st. split; [reflexivity|exact Hinv].
+  - assert (Hne : c <> []) by (intro; subst c; discriminate E0).
+    cbv zeta. destruct large.
+    + cbn [negb andb N.to_nat]. eexists. split; [reflexivity|].
+      apply var_push; [exact Hinv|exact Hne|discriminate].
+    + destruct (is_none (leaves st)) eqn:En.
+      2:{ cbn [negb andb N.to_nat]. eexists. split; [reflexivity|].
+          apply var_push; [exact Hinv|exact Hne|].
+          intros _. apply (vi_some _ _ _ Hinv eq_refl). intro H. rewrite H in En. discriminate. }
+      * assert (El : leaves st = None) by (destruct (leaves st); [discriminate|reflexivity]).
+        destruct Hinv as [Hr Hs Hc Hg Hsome]. rewrite Hr, El. cbn [negb andb is_none leaves rem skipped].
+        specialize (Hs eq_refl).
+        assert (Hlv : lv st = []) by (unfold lv; rewrite El; reflexivity).
+        rewrite Hlv in Hc. cbn [map concat skip_of] in Hc. unfold HEADER_SKIP in *. change (N.to_nat 8) with 8 in Hc.
+        assert (Ht : length t <= 8).
+        { symmetry in Hc. apply (f_equal (@length N)) in Hc. rewrite skipn_length in Hc. cbn in Hc. lia. }
+        assert (Hsk : skipped st = len t) by (rewrite Hs; unfold len; lia).
+        rewrite Hsk.
+        destruct (N.min (8 - len t) (len c) =? len c)%N eqn:E1.
+        -- apply N.eqb_eq in E1. eexists. split; [reflexivity|]. constructor; cbn [rem leaves skipped].
+           ++ reflexivity.
+           ++ intros _. unfold len in *. rewrite app_length. lia.
+           ++ unfold lv. cbn [leaves map concat skip_of]. unfold HEADER_SKIP. change (N.to_nat 8) with 8.
+              symmetry. apply skipn_all2. unfold len in *. rewrite app_length. lia.
+           ++ unfold lv. cbn [leaves]. constructor.
+           ++ intros _ H. congruence.
+        -- apply N.eqb_neq in E1.
+           assert (Hm : (N.min (8 - len t) (len c) = 8 - len t)%N) by lia. rewrite Hm.
+           eexists. split; [reflexivity|]. constructor; cbn [rem leaves skipped push_leaf].
+           ++ reflexivity.
+           ++ intros _. unfold len in *. rewrite app_length. lia.
+           ++ unfold lv. cbn [leaves map snd concat skip_of]. rewrite app_nil_r.
+              unfold HEADER_SKIP. change (N.to_nat 8) with 8.
+              rewrite skipn_app. rewrite (skipn_all2 t) by exact Ht. cbn [app]. f_equal. unfold len. lia.
+           ++ unfold lv. cbn [leaves]. constructor; [|constructor]. split; cbn [fst snd].
+              ** unfold len in *. rewrite skipn_length. lia.
+              ** intro H. apply (f_equal (@length N)) in H. rewrite skipn_length in H. cbn [length] in H. unfold len in *. lia.
+           ++ intros _ _. unfold len in *. rewrite app_length. lia.
+Qed.
+
+Lemma var_run large : forall cs t st,
+  VInv large t st -> exists st', run_chunks None large cs st = AOk st' /\ VInv large (t ++ concat cs) st'.
+Proof.
+  induction cs as [|c r IH]; intros t st Hinv; cbn [run_chunks concat].
+  - rewrite app_nil_r. exists st. split; [reflexivity|exact Hinv].
+  - destruct (var_step large t st c Hinv) as [st1 [H1 Hinv1]]. rewrite H1.
+    destruct (IH (t ++ c) st1 Hinv1) as [st2 [H2 Hinv2]]. exists st2. split; [exact H2|].
+    rewrite app_assoc. exact Hinv2.
+Qed.
+
+Lemma vinv_fresh large : VInv large [] fresh_state.
+Proof.
+  constructor; cbn; try reflexivity; try constructor.
+  - destruct large; reflexivity.
+  - intros _ H. congruence.
+Qed.
+
+(* variable leaves, EVERY chunking: contents concatenate to the payload after the header skip, recorded lengths are
+   the content lengths, and no leaf is empty *)
+Lemma variable_cover large cs :
+  exists st, run_chunks None large cs fresh_state = AOk st
+    /\ concat (map snd (final_leaves st)) = skipn (skip_of large) (concat cs)
+    /\ Forall (fun lf => fst lf = len (snd lf)) (final_leaves st)
+    /\ Forall (fun lf => snd lf <> []) (final_leaves st).
+Proof.
+  destruct (var_run large cs [] fresh_state (vinv_fresh large)) as [st [H1 [Hr _ Hc Hg _]]].
+  exists st. split; [exact H1|]. cbn [app] in Hc.
+  assert (Hf : final_leaves st = lv st) by (unfold final_leaves, flush, lv; rewrite Hr; reflexivity).
+  rewrite Hf. split; [exact Hc|]. split; eapply Forall_impl; try exact Hg; intros a [Ha Hb]; assumption.
 Qed.
 
 Lemma map_snd_mk l : map snd (map mk l) = l.
 Proof. induction l as [|c t IH]; [reflexivity|]. cbn. rewrite IH. reflexivity. Qed.
-
-Lemma effective_suffix large cs : exists pre, cs = pre ++ effective large cs.
-Proof.
-  destruct large; cbn [effective]; [exists []; reflexivity|].
-  induction cs as [|c t [pre IH]]; [exists []; reflexivity|]. cbn [drop_short].
-  destruct (length c <=? 8); [|exists []; reflexivity].
-  exists (c :: pre). cbn. rewrite <- IH. reflexivity.
-Qed.
-
-Lemma effective_head large cs c t : effective large cs = c :: t -> skip_of large <= length c /\ (c <> [] -> skipn (skip_of large) c <> []).
-Proof.
-  destruct large; cbn [effective skip_of].
-  - intros _. split; [lia|]. cbn. tauto.
-  - intro E. apply drop_short_head in E. unfold HEADER_SKIP. change (N.to_nat 8) with 8. split; [lia|].
-    intros _ H. apply (f_equal (@length N)) in H. rewrite skipn_length in H. cbn in H. lia.
-Qed.
-
-Lemma variable_cover large cs :
-  ~ known_mdat8 large cs ->
-  exists st, run_chunks None large cs fresh_state = AOk st
-    /\ concat (map snd (final_leaves st)) = skipn (skip_of large) (concat cs)
-    /\ Forall (fun lf => fst lf = len (snd lf)) (final_leaves st)
-    /\ (Forall (fun c => c <> []) (effective large cs) -> Forall (fun lf => snd lf <> []) (final_leaves st)).
-Proof.
-  intro Hk. destruct (var_char large cs) as [st [H1 H2]]. exists st. split; [exact H1|].
-  rewrite H2. rewrite <- (effective_concat large cs Hk). unfold var_leaves.
-  destruct (effective large cs) as [|c t] eqn:E.
-  - cbn. rewrite skipn_nil. repeat split; constructor.
-  - destruct (effective_head _ _ _ _ E) as [Hs Hne].
-    cbn [map snd concat fst]. rewrite map_snd_mk. split; [|split].
-    + rewrite skipn_app. replace (skip_of large - length c) with 0 by lia. reflexivity.
-    + constructor.
-      * cbn [fst snd]. unfold len. rewrite skipn_length. lia.
-      * rewrite Forall_map. apply Forall_forall. intros x _. reflexivity.
-    + intro Hall.
-      inversion Hall as [|? ? Hc Ht]; subst. constructor.
-      * cbn [snd]. apply Hne. exact Hc.
-      * rewrite Forall_map. cbn [mk snd]. exact Ht.
-Qed.
 
 (* ---- the validator on what the accumulator recorded ---- *)
 Definition header_len (large : bool) : nat := if large then N.to_nat LARGE_HEADER else N.to_nat STD_HEADER.
@@ -492,14 +499,14 @@ Proof.
 Qed.
 
 Lemma validate_fixed fs large (hdr : bytes) cs st mm :
-  (2 <= fs)%N -> ~ known_mdat8 large cs -> length hdr = header_len large ->
+  (2 <= fs)%N -> length hdr = header_len large ->
   2 <= length (skipn (skip_of large) (concat cs)) ->
   run_chunks (Some fs) large cs fresh_state = AOk st ->
   create_mm (Some fs) (final_leaves st) = AOk mm ->
   validate_mdat (hdr ++ concat cs) mm = VOk tt.
 Proof.
-  intros Hfs Hk Hh Hq Hrun Hmm.
-  destruct (fixed_leaves fs large cs ltac:(lia) Hk) as [st' [H1 H2]].
+  intros Hfs Hh Hq Hrun Hmm.
+  destruct (fixed_leaves fs large cs ltac:(lia)) as [st' [H1 H2]].
   rewrite Hrun in H1. injection H1 as <-. cbn zeta in H2.
   set (q := skipn (skip_of large) (concat cs)) in *.
   set (X := chunks (length q) (N.to_nat fs) q) in *.
@@ -542,24 +549,15 @@ Proof.
   rewrite skipn_app, Nat.sub_diag, skipn_all. cbn [skipn app]. rewrite (IH Hl). reflexivity.
 Qed.
 
-(* F-MDAT-EMPTY: variable mode records a zero-length leaf (with an empty digest) for an empty chunk *)
-Definition known_empty (large : bool) (cs : list bytes) : Prop := In [] (effective large cs).
-
-Lemma not_known_empty large cs : ~ known_empty large cs -> Forall (fun c => c <> []) (effective large cs).
-Proof.
-  intro H. apply Forall_forall. intros c Hc E. subst c. apply H. exact Hc.
-Qed.
-
 Lemma validate_variable large (hdr : bytes) cs st mm :
-  ~ known_mdat8 large cs -> ~ known_empty large cs -> length hdr = header_len large ->
+  length hdr = header_len large ->
   run_chunks None large cs fresh_state = AOk st ->
   create_mm None (final_leaves st) = AOk mm ->
   validate_mdat (hdr ++ concat cs) mm = VOk tt.
 Proof.
-  intros Hk Hne Hh Hrun Hmm.
-  destruct (variable_cover large cs Hk) as [st' [H1 [Hc [Hf Hn]]]].
+  intros Hh Hrun Hmm.
+  destruct (variable_cover large cs) as [st' [H1 [Hc [Hf Hn]]]].
   rewrite Hrun in H1. injection H1 as <-.
-  specialize (Hn (not_known_empty _ _ Hne)).
   unfold create_mm in Hmm. injection Hmm as <-.
   replace (len (final_leaves st)) with (len (map snd (final_leaves st)))
     by (unfold len; rewrite map_length; reflexivity).
@@ -569,25 +567,7 @@ Proof.
   rewrite (nsum_fst _ Hf). rewrite N.eqb_refl. rewrite (split_by_concat _ Hf). reflexivity.
 Qed.
 
-(* the class is real: 12-byte payload of a large-header mdat fed as 5 + 0 + 7 bytes *)
-Definition empty_payload : bytes := map N.of_nat (seq 0 12).
-Definition empty_chunks : list bytes := [firstn 5 empty_payload; []; skipn 5 empty_payload].
-Definition large_header : bytes := [0; 0; 0; 1; 109; 100; 97; 116; 0; 0; 0; 0; 0; 0; 0; 28]%N.
-
-Lemma empty_refuted :
-  concat empty_chunks = empty_payload /\ known_empty true empty_chunks /\ ~ known_mdat8 true empty_chunks /\
-  exists st mm,
-    run_chunks None true empty_chunks fresh_state = AOk st
-    /\ map fst (final_leaves st) = [5; 0; 7]%N
-    /\ create_mm None (final_leaves st) = AOk mm
-    /\ validate_mdat (large_header ++ empty_payload) mm = VErr VHashMismatch.
-Proof.
-  split; [reflexivity|]. split; [right; left; reflexivity|]. split; [intros [H _]; discriminate H|].
-  eexists. eexists. split; [vm_compute; reflexivity|].
-  split; [vm_compute; reflexivity|]. split; [vm_compute; reflexivity|]. vm_compute. reflexivity.
-Qed.
-
-(* F-MDAT-FBS1: a Merkle region of one byte gives fixedBlockSize = min(1, fs) = 1, which the validator refuses *)
+(* F-MDAT-FBS1 (open): a Merkle region of one byte gives fixedBlockSize = min(1, fs) = 1, which the validator refuses *)
 Lemma fbs1_refuted :
   exists st mm,
     run_chunks (Some 1024%N) false [map N.of_nat (seq 0 9)] fresh_state = AOk st
@@ -599,27 +579,10 @@ Proof.
   split; [vm_compute; reflexivity|]. split; [vm_compute; reflexivity|]. split; vm_compute; reflexivity.
 Qed.
 
-(* ---- F-MDAT8 is real: a 4-byte first chunk of a 20-byte payload, 4-byte leaves ---- *)
+(* the inputs that used to witness F-MDAT8 and F-MDAT-EMPTY (kept in the corpus) *)
 Definition mdat8_payload : bytes := map N.of_nat (seq 0 20).
 Definition mdat8_chunks : list bytes := [firstn 4 mdat8_payload; skipn 4 mdat8_payload].
 Definition mdat8_header : bytes := [0; 0; 0; 28; 109; 100; 97; 116]%N.
-
-Lemma mdat8_refuted :
-  concat mdat8_chunks = mdat8_payload /\ known_mdat8 false mdat8_chunks /\
-  exists st mm,
-    run_chunks (Some 4%N) false mdat8_chunks fresh_state = AOk st
-    /\ map snd (final_leaves st) = [[12; 13; 14; 15]; [16; 17; 18; 19]]%N
-    /\ chunks 12 4 (skipn 8 mdat8_payload) = [[8; 9; 10; 11]; [12; 13; 14; 15]; [16; 17; 18; 19]]%N
-    /\ create_mm (Some 4%N) (final_leaves st) = AOk mm
-    /\ validate_mdat (mdat8_header ++ mdat8_payload) mm = VErr VValidation.
-Proof.
-  split; [reflexivity|]. split; [split; [reflexivity|cbn; lia]|].
-  eexists. eexists. split; [vm_compute; reflexivity|].
-  split; [vm_compute; reflexivity|]. split; [vm_compute; reflexivity|].
-  split; [vm_compute; reflexivity|]. vm_compute. reflexivity.
-Qed.
-
-(* the skipped bytes in general: chunks of at most 8 bytes in front are dropped entirely *)
-Lemma mdat8_characterised fixed cs :
-  run_chunks fixed false cs fresh_state = run_chunks fixed false (drop_short cs) fresh_state.
-Proof. apply run_drop_short. Qed.
+Definition empty_payload : bytes := map N.of_nat (seq 0 12).
+Definition empty_chunks : list bytes := [firstn 5 empty_payload; []; skipn 5 empty_payload].
+Definition large_header : bytes := [0; 0; 0; 1; 109; 100; 97; 116; 0; 0; 0; 0; 0; 0; 0; 28]%N.
